@@ -584,6 +584,53 @@ def run(ctx) -> None:
                "instead of shut-down and the stage is reported as failed",
                construct="refused restart -> TransitionComponentToFinalState")
 
+    # the exit reason that decides the final state is the one the task EXITED with, captured before the restart was attempted:
+    # Engine.restart resets the engine's exit reason before it launches, so a value read again after a restart that could not be
+    # initiated is None - not on any shutdown list - and a component that should be shut down ends FAILED (seed C02-14)
+    from vlib import flow as _flow2
+    restart_nodes = match.nodes_calling(cfg, lambda c: last_attr(c) == "_restartComponent")
+    after_restart = cfg.reach(restart_nodes, include_starts=False) if restart_nodes else set()
+    for fnode in match.nodes_calling(cfg, lambda c: call_name(c) == "TransitionComponentToFinalState"):
+        call = [c for c in own_calls(fnode.ast) if call_name(c) == "TransitionComponentToFinalState"][0]
+        if fnode.id not in after_restart or len(call.args) < 2:
+            continue
+        def read_after(name: str, at: int, depth: int = 0) -> bool:
+            """does a definition of `name` that reaches node `at` read the engine (any call) after the restart attempt?"""
+            if depth > 4:
+                return True
+            for d in _flow2.reaching_defs(cfg, name).get(at, frozenset()):
+                if d < 0 or d not in after_restart:
+                    continue            # a parameter, or defined before the attempt
+                v = _flow2.def_value(cfg, d, name)
+                if v is None:
+                    # a, b = x, y
+                    dn = next((n_ for n_ in cfg.nodes if n_.id == d), None)
+                    st_ = dn.ast if dn is not None else None
+                    if isinstance(st_, ast.Assign) and len(st_.targets) == 1 and isinstance(st_.targets[0], ast.Tuple) \
+                            and isinstance(st_.value, ast.Tuple) and len(st_.value.elts) == len(st_.targets[0].elts):
+                        for t_, e_ in zip(st_.targets[0].elts, st_.value.elts):
+                            if isinstance(t_, ast.Name) and t_.id == name:
+                                v = e_
+                if v is None or any(isinstance(x, ast.Call) for x in ast.walk(v)):
+                    return True
+                # a plain copy of other locals (possibly through tuple unpacking): follow them
+                if any(read_after(x.id, d, depth + 1) for x in ast.walk(v) if isinstance(x, ast.Name)):
+                    return True
+            return False
+        stale = None
+        for a_ in call.args[1:3]:
+            if isinstance(a_, ast.Name):
+                if read_after(a_.id, fnode.id):
+                    stale = a_
+            elif any(isinstance(x, ast.Call) and last_attr(x) in ("exitReason", "returncode") for x in ast.walk(a_)):
+                stale = a_
+        ctx.ob("C02.R2-postmortem-total", call, stale is None,
+               "the final state after a refused restart is decided by the exit reason captured before the restart attempt" if stale is None else
+               "after a restart that was not initiated the final state is decided by %s, read AFTER the attempt: Engine.restart resets the exit "
+               "reason before it launches, so when the launch fails the value is None, it is on no shutdown list and a component whose exit "
+               "reason is on shutdownOn ends FAILED - the stage is reported failed" % short(stale, 50),
+               construct="refused restart: exit reason captured before the attempt")
+
     # ------------------------------------------------ R3
     fc = ctl.func("Controller.finishedCheck")
     ctx.analysed(fc)
